@@ -251,3 +251,29 @@ pub fn byte() -> BoxedStrategy<u8> {
     ]
     .boxed()
 }
+
+/// Limb alphabets for complete enumerations over multi-limb values.
+pub const LIMB_ALPHABET8: [u64; 8] = [0, 1, 2, (1 << 63) - 1, 1 << 63, (1 << 63) + 1, u64::MAX - 1, u64::MAX];
+pub const LIMB_ALPHABET5: [u64; 5] = [0, 1, 1 << 63, u64::MAX - 1, u64::MAX];
+
+/// Every value of `bits` bits whose limbs all come from `alpha` (top limb masked; duplicates
+/// that arise from masking removed). Several carries / borrows that are exactly 0 or all ones at
+/// once only occur for such operands.
+pub fn alphabet_values(bits: usize, alpha: &[u64]) -> Vec<Vec<u64>> {
+    let n = nlimbs(bits);
+    let k = alpha.len() as u64;
+    let mut out: Vec<Vec<u64>> = vec![];
+    let mut seen = std::collections::HashSet::new();
+    for mut idx in 0..k.pow(n as u32) {
+        let mut v = Vec::with_capacity(n);
+        for _ in 0..n {
+            v.push(alpha[(idx % k) as usize]);
+            idx /= k;
+        }
+        let v = mask_vec(v, bits);
+        if seen.insert(v.clone()) {
+            out.push(v);
+        }
+    }
+    out
+}
